@@ -5,6 +5,7 @@ encoding understood by `lean/Drivers/C16.lean`:
 
     A lhs kind n r1..rn                       plain-variable assignment (kind: shalloc | lock | fresh | view)
     M acc|other nb b.. ni i.. nr r..          in-place modification of (a view of) the arrays b.., subscript names i..
+                                              (pseudo name `#const`: a literal subscript, i.e. certainly a partial store)
     O n r..                                   any other simple statement (names read)
     W lock k <k statements>                   `with <Name>:`
     P nb binds.. nr reads.. k <k statements>  `with parallel.ctxrange(..) as v:`
@@ -67,6 +68,16 @@ def names(node, skip_index=False, only_index=False):
     return out
 
 
+def partial_const_index(target):
+    """does a subscript of the target select by a literal (string / number) — i.e. certainly only a part of the object?"""
+    for n in ast.walk(target):
+        if isinstance(n, ast.Subscript):
+            for m in ast.walk(n.slice):
+                if isinstance(m, ast.Constant) and m.value is not Ellipsis and m.value is not None:
+                    return True
+    return False
+
+
 def rhs_kind(v):
     if isinstance(v, ast.Call):
         f = dotted(v.func)
@@ -93,6 +104,7 @@ class Extractor:
     def mutate(self, acc, target, reads):
         self.count('M:' + ('acc' if acc else 'other'))
         base = names(target, skip_index=True); idx = names(target, only_index=True)
+        if partial_const_index(target): idx = idx + ['#const']      # `a['key'] = ..`, `a[0] = ..`: not an overwrite of the whole object
         return [['M', 'acc' if acc else 'other'] + cnt(base) + cnt(idx) + cnt([r for r in reads if r not in base])]
 
     def other(self, node):
